@@ -36,6 +36,7 @@ REQUIRED = [
     "Pixman.Props.C11.transformPoint3116_projective_reduced",
     "Pixman.Props.C11.transformPoint_reduced_sharp",
     "Pixman.Props.C11.transformPoint_within_one",
+    "Pixman.Props.C11.transformPoint_w_zero",
     "Pixman.Props.C11.applyPair_spec",
     "Pixman.Props.C11.applyPair_exact",
     "Pixman.Props.C11.translate_spec",
